@@ -24,14 +24,14 @@ const (
 	c15Idle = 700 * time.Millisecond
 )
 
-var c15Limits = map[string]time.Duration{"pp": c15PP, "head": c15Head, "tls": c15TLS, "mitm": c15TLS, "idle": c15Idle}
+var c15Limits = map[string]time.Duration{"pp": c15PP, "head": c15Head, "tls": c15TLS, "mitm": c15TLS, "idle": c15Idle, "mwait": c15Idle}
 
 var c15Phases = map[string][]string{
 	"plain": {"idle", "head", "rt", "idle"},
 	"tls":   {"tls", "idle", "head", "rt", "idle"},
 	"pp":    {"pp", "idle", "head", "rt", "idle"},
 	"pptls": {"pp", "tls", "idle", "head", "rt", "idle"},
-	"mitm":  {"idle", "head", "mitm", "idle", "head", "rt", "idle"},
+	"mitm":  {"idle", "head", "mwait", "mitm", "idle", "head", "rt", "idle"},
 }
 
 type c15Case struct {
@@ -181,6 +181,8 @@ func (env *c15Env) walkD(st string, upTo int, partial bool, path string, slowOri
 			if dwell {
 				time.Sleep(c15Dwell)
 			}
+		case "mwait":
+			// nothing to send: the first byte of the hello ends the wait
 		case "head":
 			switch {
 			case st == "mitm" && !inner:
@@ -251,11 +253,11 @@ func c15Run(e *env) {
 	n := 0
 	for _, c := range cases {
 		for _, partial := range []bool{false, true} {
-			if partial && c.Phase == "idle" {
+			if partial && (c.Phase == "idle" || c.Phase == "mwait") {
 				continue // an idle wait has no bytes
 			}
 			if !partial && c.Phase == "mitm" {
-				continue // before the first byte no handshake has begun and no limit is defined (DESIGN.md C15)
+				continue // before the first byte of the hello: that is the phase mwait
 			}
 			if !partial && c.Phase == "head" && c.Dwell {
 				continue // without a first byte the peer is still in the idle wait it has already partly sat out
@@ -339,10 +341,16 @@ func (env *c15Env) stallCase(id int, c c15Case, partial bool) map[string]any {
 		at, closed := o.at, o.closed
 		d := at.Sub(w.last)
 		after = append(after, d.Milliseconds())
+		lo := limit
+		if c.Phase == "mwait" && c15TLS < lo {
+			// the statement names no limit for the wait between the 200 and the first byte of the hello: the idle limit
+			// (a wait for the client's next move) and the handshake limit (counted from the 200) are both accepted
+			lo = c15TLS
+		}
 		switch {
 		case !closed:
 			fail(fmt.Sprintf("peer stalled in phase %s not closed %v after its last byte (limit %v)", c.Phase, d, limit))
-		case d < limit-20*time.Millisecond:
+		case d < lo-20*time.Millisecond:
 			fail(fmt.Sprintf("peer stalled in phase %s closed after %v, before its limit %v", c.Phase, d, limit))
 		case d > limit+3*time.Second:
 			fail(fmt.Sprintf("peer stalled in phase %s closed only after %v (limit %v)", c.Phase, d, limit))
